@@ -509,14 +509,15 @@ def parse_route_path( route_path, trailer_parser=None ):
         # followed optionally by something acceptable to trailer_parser (producing a sequence)
         rps			= []
         pls			= iter( route_path )
-        pl			= next( pls, None )
-        while pl:
+        end			= object() # a JSON null/0/"" element is an element (an invalid one), not the end
+        pl			= next( pls, end )
+        while pl is not end:
             try:
                 rps.append( port_link( pl ))
             except Exception:
                 break
-            pl			= next( pls, None )
-        trs			= ( [] if pl is None else [ pl ] ) + list( pls )
+            pl			= next( pls, end )
+        trs			= ( [] if pl is end else [ pl ] ) + list( pls )
         if trs:
             # All trailer elements are CIP paths
             assert trailer_parser, "route_path unhandled: %r" % ( trs, )
